@@ -46,7 +46,19 @@ theorem ack_exited (pick : Pick) (s : State) (ok : Bool) (h : s.pc = .exited) : 
 /-- the inductive invariant: the ledger holds until the queue goroutine has exited -/
 def I (s : State) : Prop := s.pc = .exited ∨ LInv s
 
-theorem step_I {pick : Pick} (hp : Admissible pick) {s : State} (h : I s) (a : Act) : I (step pick s a) := by
+/-- the act is not an allocator call on this queue's own peer by somebody else (no second queue of
+    the same peer is alive) -/
+def soloAct (p : Nat) : Act → Bool
+  | .env op => opPeer op != p
+  | _ => true
+
+/-- no act of the schedule is an allocator call on this queue's own peer by somebody else -/
+def soloFrom (pick : Pick) : State → List Act → Bool
+  | _, [] => true
+  | s, a :: r => soloAct s.peer a && soloFrom pick (step pick s a) r
+
+theorem step_I {pick : Pick} (hp : Admissible pick) {s : State} (h : I s) (a : Act) (hs : soloAct s.peer a = true) :
+    I (step pick s a) := by
   cases a with
   | build tx =>
     rcases h with h | h
@@ -72,23 +84,21 @@ theorem step_I {pick : Pick} (hp : Admissible pick) {s : State} (h : I s) (a : A
     · right
       exact ⟨⟨⟨h.led.1.ainv, h.led.1.pend, h.led.1.nodupW, h.led.1.fresh, h.led.1.nofail, h.led.1.wsize⟩, h.led.2⟩, h.binv⟩
   | env op =>
-    show I (if opPeer op == s.peer then s else (s.allocStep pick op).1)
-    split
-    · exact h
-    · next hq =>
-      have hq' : opPeer op ≠ s.peer := by simpa using hq
-      rcases h with h | h
-      · exact Or.inl h
-      · exact Or.inr (env_linv hp h op hq').1
+    have hq' : opPeer op ≠ s.peer := by simpa [soloAct] using hs
+    rcases h with h | h
+    · exact Or.inl h
+    · exact Or.inr (env_linv hp h op hq').1
 
 theorem init_LInv {peer mr mt mp : Nat} (ht : mt < W) (hm : mp < W) : LInv (init peer mr mt mp) := by
   refine ⟨⟨⟨Alloc.Inv.init ht hm, rfl, by simp [init], by simp [init], by simp [init], by simp [init]⟩, rfl⟩, by simp [init]⟩
 
-theorem runActs_I {pick : Pick} (hp : Admissible pick) {s : State} (h : I s) (acts : List Act) :
-    I (runActs pick s acts) := by
+theorem runActs_I {pick : Pick} (hp : Admissible pick) {s : State} (h : I s) (acts : List Act)
+    (hs : soloFrom pick s acts = true) : I (runActs pick s acts) := by
   unfold runActs
   induction acts generalizing s with
   | nil => exact h
-  | cons a r ih => exact ih (step_I hp h a)
+  | cons a r ih =>
+    simp only [soloFrom, Bool.and_eq_true] at hs
+    exact ih (step_I hp h a hs.1) hs.2
 
 end GS.MQ
